@@ -66,6 +66,22 @@ class Sym:
                 if a['k'] == 'assign' and isinstance(a['rv'].get('agg'), dict) and a['rv']['agg'].get('variant') and not a['rv'].get('ops') \
                         and b['k'] == 'assign' and b['place']['local'] == 0 and 'ref' in b['rv'] and b['rv']['ref']['local'] == a['place']['local'] and not b['rv']['ref']['proj']:
                     return ('agg', '%s::%s' % (a['rv']['agg']['adt'], a['rv']['agg']['variant']), ())
+            # `&(a..b)` / `&(a..=b)` with constant ends: a promoted range (`(1..=VERSION).contains(&v)`)
+            if pr:
+                try:
+                    blocks = pr['blocks']
+                    t0 = blocks[0].get('term') or {}
+                    cal = (t0.get('callee') or {}).get('path', '') if t0.get('k') == 'call' else ''
+                    if cal.endswith('RangeInclusive::<Idx>::new') and len(t0['args']) == 2 and all('const' in a for a in t0['args']):
+                        lo, hi = (self.const(a['const']) for a in t0['args'])
+                        return ('agg', 'std::ops::RangeInclusive', (('start', lo), ('end', hi)))
+                    for st in blocks[0]['stmts']:
+                        ag = st.get('rv', {}).get('agg') if st['k'] == 'assign' else None
+                        if isinstance(ag, dict) and str(ag.get('adt', '')) in ('std::ops::Range', 'std::ops::RangeInclusive') and len(st['rv'].get('ops', [])) == 2 and all('const' in o for o in st['rv']['ops']):
+                            lo, hi = (self.const(o['const']) for o in st['rv']['ops'])
+                            return ('agg', ag['adt'], (('start', lo), ('end', hi)))
+                except (KeyError, IndexError, TypeError):
+                    pass
             return ('cpromoted', c['promoted'])
         if 'bytes' in c:
             return ('cbytes', c['bytes'], c.get('ty', ''))
@@ -521,7 +537,7 @@ def map_children(e, f):
     return (h, f(e[1])) + tuple(e[2:])
 
 
-_NUM_FROM = re.compile(r'^std::convert::num::<impl std::convert::From<(bool|u8|u16|u32|u64|usize)> for (u16|u32|u64|u128|usize)>::from$')
+_NUM_FROM = re.compile(r'^std::convert::num::<impl std::convert::From<(bool|u8|u16|u32|u64|usize)> for (u8|u16|u32|u64|u128|usize)>::from$')
 
 
 def subst(e, m):
